@@ -57,7 +57,7 @@ class C12(Check):
             "(batch size, dims, budget, request-size sequence, exhausted?)")
     assumptions = ["BaseSampler.sample and find_and_get_duplicates: real code", "generator: scripted peer (sim/peers.ScriptedSampler)",
                    "which redraw lands on which repeated position is not prescribed: results compared as multisets"]
-    quick = {"runs": 400, "wall": 40, "item_timeout": 30}
+    quick = {"runs": 800, "wall": 150, "item_timeout": 100}
     thorough = {"runs": 6000, "wall": 600, "item_timeout": 60}
     CASES = 250
 
